@@ -3,7 +3,7 @@
 (* edits of a base set of descriptions (C06) as NDJSON cases.                 *)
 EXTENDS Idl, Json
 CONSTANTS Depth, Rich
-C05 == {[desc |-> d, toks |-> TokD(d)] : d \in D1(Depth) \cup D2}
+C05 == {[desc |-> d, toks |-> TokD(d)] : d \in D1(Depth) \cup D2 \cup D3}
 Extra06 == {Desc("a.b", <<MType("Tb", t), MMethod("M", Struct(<<>>), Struct(<<>>))>>) :
                t \in {Maybe(Arr(Leaf("int"))), Map(Maybe(Leaf("string"))), Enum(<<"a", "b">>), Struct(<<F("a", Leaf("int")), F("b", Leaf("int"))>>)}}
             \cup {Desc("a.b", <<MMethod("M", Struct(<<F("x", Maybe(Leaf("int")))>>), Struct(<<F("y", Map(Leaf("bool")))>>)), MError("E", <<Struct(<<F("c", Leaf("string"))>>)>>), MError("G", <<>>)>>)}
